@@ -9,8 +9,115 @@
   entry), runs `parseNil`/`mutate` and compares what the caller sees (`ser`).
 -/
 import Gozod.Model.Store
+import Gozod.Model.Graph
 namespace Gozod.Drv.C15
 open Gozod.Store
+
+/-! ### graphs with aggregates (`Gozod.Model.Graph`): the op line carries the shape of the generated Go value
+
+    V ::= S n | Z | R label k (key V)^k | B label | A k (key V)^k          (harness/storex/gen.go EncodeGraph)
+
+    c15 val <entry> <ow 0|1> | V                 by-value input through Parse/ParseAny/StrictParse → "u" (input graph as before)
+    c15 hist <default|prefault> <h 0|1> <steps> | V
+        steps: P = Parse(nil) on a schema of the family (all hold the value V), M<j> = deep in-place mutation of the j-th result
+        → "<same|CHANGED per P after the first>|<fresh|ALIASED>|<hash of the first result or ->"
+-/
+section graphs
+open Gozod.Graph
+
+abbrev PRes := Option (GVal × List String × GHeap)
+
+def parseEntries (pv : List String → GHeap → PRes) :
+    Nat → List String → GHeap → Option (Entries × List String × GHeap)
+  | 0, ts, h => some ([], ts, h)
+  | k + 1, key :: ts, h =>
+    match pv ts h with
+    | some (v, ts', h') =>
+      match parseEntries pv k ts' h' with
+      | some (es, ts'', h'') => some ((key.toNat!, v) :: es, ts'', h'')
+      | none => none
+    | none => none
+  | _ + 1, [], _ => none
+
+def parseV : Nat → List String → GHeap → PRes
+  | 0, _, _ => none
+  | _ + 1, "S" :: n :: rest, h => some (.scalar n.toNat!, rest, h)
+  | _ + 1, "Z" :: rest, h => some (.nil, rest, h)
+  | _ + 1, "B" :: l :: rest, h => some (.ref l.toNat!, rest, h)
+  | f + 1, "R" :: l :: k :: rest, h =>
+    match parseEntries (parseV f) k.toNat! rest h with
+    | some (es, rest', h') => some (.ref l.toNat!, rest', gupd h' l.toNat! es)
+    | none => none
+  | f + 1, "A" :: k :: rest, h =>
+    match parseEntries (parseV f) k.toNat! rest h with
+    | some (es, rest', h') => some (.agg es, rest', h')
+    | none => none
+  | _ + 1, _, _ => none
+
+/-- number of labels used = number of `R` tokens -/
+def countR (ts : List String) : Nat := (ts.filter (· == "R")).length
+
+def build (ts : List String) : Option (GStore × GVal) :=
+  match parseV 64 ts (fun _ => none) with
+  | some (v, [], h) => some ({ heap := h, next := countR ts + 1 }, v)
+  | _ => none
+
+def serHash (xs : List Nat) : Nat := xs.foldl (fun h x => (h * 1000003 + x) % 2147483647) 7
+
+def disjoint (a b : List Nat) : Bool := a.all (fun x => !b.contains x)
+
+/-- the entry rewriting used for by-value inputs in the driver: drop every 5th key, canonicalise the others -/
+def drvRw (k : Nat) (v : GVal) : Option (Nat × GVal) := if k % 5 = 4 then none else some (k % 11, v)
+
+def valRun (ts : List String) : String :=
+  match build ts with
+  | none => "bad-graph"
+  | some (σ, v) =>
+    let before := (reach gdepth σ.heap v, ser gdepth σ.heap v)
+    let r := rebuild drvRw gdepth σ v
+    let r2 := rebuild (fun k v => some (k, v)) gdepth r.1 v
+    if (reach gdepth r2.1.heap v, ser gdepth r2.1.heap v) == before then "u" else "W"
+
+structure HSt where
+  σ : GStore
+  results : List GVal
+  verd : List String
+  fresh : Bool
+  first : Option (List Nat)
+
+def histRun (withHash : Bool) (steps : List String) (ts : List String) : String :=
+  match build ts with
+  | none => "bad-graph"
+  | some (σ0, d) =>
+    let owned := reach gdepth σ0.heap d
+    let st : HSt := steps.foldl (fun st s =>
+      if s == "P" then
+        let r := parseNilG true st.σ d
+        let look := ser gdepth r.1.heap r.2
+        let fr := disjoint (reach gdepth r.1.heap r.2) owned &&
+                  st.results.all (fun o => disjoint (reach gdepth r.1.heap r.2) (reach gdepth r.1.heap o))
+        match st.first with
+        | none => { σ := r.1, results := st.results ++ [r.2], verd := st.verd, fresh := st.fresh && fr, first := some look }
+        | some f => { σ := r.1, results := st.results ++ [r.2], verd := st.verd ++ [if look == f then "same" else "CHANGED"],
+                      fresh := st.fresh && fr, first := some f }
+      else
+        match (s.drop 1).toNat? with
+        | some j => match st.results[j]? with
+          | some v => { st with σ := mutateAll st.σ v }
+          | none => st
+        | none => st) { σ := σ0, results := [], verd := [], fresh := true, first := none }
+    let h := match st.first with
+      | some f => if withHash then s!"h{serHash f}" else "-"
+      | none => "-"
+    s!"{",".intercalate st.verd}|{if st.fresh then "fresh" else "ALIASED"}|{h}"
+
+def specHist (steps : List String) : String :=
+  ",".intercalate (((steps.filter (· == "P")).drop 1).map (fun _ => "same")) ++ "|fresh|"
+
+def splitBar (ts : List String) : List String × List String :=
+  (ts.takeWhile (· != "|"), (ts.dropWhile (· != "|")).drop 1)
+
+end graphs
 
 /-- chain of `d` nested nodes; returns the store and the root value -/
 def chain : Nat → Store → Store × UVal
@@ -56,6 +163,15 @@ def handleWith (cfg : Cfg) : List String → String
     let same := if want == "-" then "-" else (if r.2 == .ref 1 then "s" else "d")
     s!"{u} {same}\t{if ow == "1" then u else "u"} {want}"
   | ["reparse"] => "same\tsame"
+  | "val" :: _entry :: ow :: "|" :: g =>
+    -- a schema with an overwrite / transform somewhere is outside the statement: not judged ("o")
+    if ow == "1" then "o\to" else s!"{valRun g}\tu"
+  | "hist" :: _kind :: hflag :: rest =>
+    let (steps, g) := splitBar rest
+    let m := histRun (hflag == "1") steps g
+    -- the spec: every later result looks like the first, nothing is shared; the look itself (hash) is the model's
+    let hpart := (m.splitOn "|").getLast!
+    s!"{m}\t{specHist steps}{hpart}"
   | ["dflt", _kind, d] =>
     match d.toNat? with
     | some d => s!"{dfltRun cfg d}\tsame,same,same"
